@@ -31,6 +31,7 @@ type FuncContract struct {
 	Raises   []*Clause // exact panic conditions that callers may let propagate (fail-closed faults)
 	Invs     []*Clause
 	Modifies []string // ghost vars and heap components the function may change beyond fresh memory
+	Uses     []string // opt-in lemma axioms available to this function's obligations
 	Inline   bool     // no contract: callers execute the body
 	Trusted  bool     // contract assumed, body not verified (must be listed)
 	MayPanicRNG bool
@@ -130,6 +131,15 @@ func parseContractFile(path string, cs *ContractSet) error {
 			for _, x := range strings.Split(strings.TrimSpace(strings.TrimPrefix(t, "modifies")), ",") {
 				if x = strings.TrimSpace(x); x != "" {
 					cur.Modifies = append(cur.Modifies, x)
+				}
+			}
+		case strings.HasPrefix(t, "uses"):
+			if err := finish(); err != nil {
+				return err
+			}
+			for _, x := range strings.Split(strings.TrimSpace(strings.TrimPrefix(t, "uses")), ",") {
+				if x = strings.TrimSpace(x); x != "" {
+					cur.Uses = append(cur.Uses, x)
 				}
 			}
 		case t == "inline":
